@@ -82,8 +82,12 @@ def r1(model, rep):
     other_calls = [c for c in ast.walk(fn) if isinstance(c, ast.Call) and is_name(c.func, hname) and not any(c is s[2] for s in sites)]
     if len(sites) != 2 or other_calls:
         raise AnalysisError("_diag: expected two guarded node-adding loops, found %d (+%d other calls)" % (len(sites), len(other_calls)))
-    flat = [s for s in sites if is_name(s[2].args[0], "graph")]
-    clus = [s for s in sites if not is_name(s[2].args[0], "graph")]
+    gnames = [x.targets[0].id for x in ast.walk(fn) if isinstance(x, ast.Assign) and isinstance(x.targets[0], ast.Name) and isinstance(x.value, ast.Call) and ast.unparse(x.value.func) == "pydot.Dot"]
+    if len(gnames) != 1:
+        raise AnalysisError("_diag: the top-level graph object is not bound once")
+    GRAPH = gnames[0]
+    flat = [s for s in sites if is_name(s[2].args[0], GRAPH)]
+    clus = [s for s in sites if not is_name(s[2].args[0], GRAPH)]
     if len(flat) != 1 or len(clus) != 1:
         raise AnalysisError("_diag: flat / cluster loop not told apart")
     for lp, iff, call in sites:
@@ -146,7 +150,7 @@ def r1(model, rep):
     rep.instance("R1", construct + " every component added exactly once", where, ok)
     # ---- edges
     ok = True
-    eloops = [x for x in ast.walk(fn) if isinstance(x, ast.For) and any(isinstance(c, ast.Call) and ast.unparse(c.func) == "graph.add_edge" for c in ast.walk(x))]
+    eloops = [x for x in ast.walk(fn) if isinstance(x, ast.For) and any(isinstance(c, ast.Call) and ast.unparse(c.func) == GRAPH + ".add_edge" for c in ast.walk(x))]
     if len(eloops) != 1 or any(isinstance(p_, ast.For) for p_ in [getattr(eloops[0], "_parent", None)]):
         ok = False
         rep.violation("R1", construct, where, "edges are not added by one loop over the graph's edges (found %d edge-adding loops / nesting): a link can be drawn twice or not at all" % len(eloops), "edge loop shape")
@@ -174,13 +178,14 @@ def r1(model, rep):
                 ok = False
                 rep.violation("R1", construct, "%s:%d" % (rel, calls[0].lineno), "edge endpoints are (%s, %s), expected (parent, child) of the same edge" % (e0, e1), "edge endpoints")
     # legend: the only other node, only with a loss frame
-    extra = [c for c in ast.walk(fn) if isinstance(c, ast.Call) and ast.unparse(c.func) == "graph.add_node"]
+    extra = [c for c in ast.walk(fn) if isinstance(c, ast.Call) and ast.unparse(c.func) == GRAPH + ".add_node"]
     good = len(extra) == 1
     if good:
         par = getattr(extra[0], "_parent", None)
         while par is not None and not isinstance(par, ast.If):
             par = getattr(par, "_parent", None)
-        good = par is not None and ast.unparse(par.test).replace(" ", "") in ("lossisnotNone", "ldfisnotNone")
+        good = par is not None and ast.unparse(par.test).replace(" ", "").endswith("isnotNone") and ast.unparse(par.test).split()[0] in ("loss",) + tuple(
+            x.targets[0].id for x in ast.walk(fn) if isinstance(x, ast.Assign) and isinstance(x.targets[0], ast.Name) and isinstance(x.value, ast.Call) and is_name(x.value.func, "_prep_loss"))
     if not good:
         ok = False
         rep.violation("R1", construct, where, "the legend is not the single extra node added exactly when a loss frame is given", "legend node")
@@ -199,22 +204,34 @@ def r2(model, rep):
     ok = True
     where = "%s:%d" % (rel, helper.lineno)
     idx = {}
+    # roles: the attribute dict is what is splatted into pydot.Node; the kind key is the name assigned from type(..).__name__
+    nodecalls = [c for c in ast.walk(helper) if isinstance(c, ast.Call) and ast.unparse(c.func) == "pydot.Node"]
+    if len(nodecalls) != 1 or not nodecalls[0].keywords or nodecalls[0].keywords[-1].arg is not None or not isinstance(nodecalls[0].keywords[-1].value, ast.Name):
+        raise AnalysisError("node helper: pydot.Node(name, **attributes) not found")
+    CONF = nodecalls[0].keywords[-1].value.id
+    COMP = None
+    for s in body:
+        if isinstance(s, ast.Assign) and isinstance(s.targets[0], ast.Name) and ast.unparse(s.value).endswith(".__name__"):
+            COMP = s.targets[0].id
+    if COMP is None:
+        raise AnalysisError("node helper: component kind key not found")
     for i, s in enumerate(body):
         src = ast.unparse(s).replace('"', "'").replace(" ", "")
-        if isinstance(s, ast.Assign) and src.startswith("conf=copy.deepcopy(%s['default'])" % ATTRS):
+        if isinstance(s, ast.Assign) and src.startswith("%s=copy.deepcopy(%s['default'])" % (CONF, ATTRS)):
             idx["default"] = i
-        if isinstance(s, ast.Assign) and is_name(s.targets[0], "comp"):
+        if isinstance(s, ast.Assign) and is_name(s.targets[0], COMP):
             idx["kinddef"] = i
             want = "type(sys._g[sys._g.attrs['nodes'][%s]]).__name__" % NAME
             if ast.unparse(s.value).replace('"', "'") != want:
                 ok = False
                 rep.violation("R2", "diagram._diag.add_node", "%s:%d" % (rel, s.lineno), "the kind used for overrides is %s, not the class name of the node's own component" % ast.unparse(s.value), "kind key")
-        if isinstance(s, ast.If):
+        if isinstance(s, ast.If) and len(s.body) == 1 and isinstance(s.body[0], ast.For) and isinstance(s.body[0].target, ast.Name):
             t = ast.unparse(s.test).replace(" ", "")
-            inner = ast.unparse(s).replace('"', "'").replace(" ", "")
-            if t == "compin%s" % ATTRS and "conf[key]=%s[comp][key]" % ATTRS in inner:
+            kv = s.body[0].target.id
+            inner = ast.unparse(s.body[0]).replace('"', "'").replace(" ", "")
+            if t == "%sin%s" % (COMP, ATTRS) and "%s[%s]=%s[%s][%s]" % (CONF, kv, ATTRS, COMP, kv) in inner:
                 idx["kind"] = i
-            if t == "%sin%s" % (NAME, ATTRS) and "conf[key]=%s[%s][key]" % (ATTRS, NAME) in inner:
+            if t == "%sin%s" % (NAME, ATTRS) and "%s[%s]=%s[%s][%s]" % (CONF, kv, ATTRS, NAME, kv) in inner:
                 idx["name"] = i
     need = ["default", "kind", "name"]
     if any(k not in idx for k in need):
@@ -227,11 +244,30 @@ def r2(model, rep):
     # clusters: default -> group name
     src = ast.unparse(fn).replace('"', "'")
     ok = True
-    cl = [x for x in ast.walk(fn) if isinstance(x, ast.Assign) and is_name(x.targets[0], "cconf")]
-    if not cl or ast.unparse(cl[0].value).replace('"', "'").replace(" ", "") != "copy.deepcopy(bd_conf['cluster']['default'])":
+    bds = [x.targets[0].id for x in ast.walk(fn) if isinstance(x, ast.Assign) and isinstance(x.targets[0], ast.Name) and ast.unparse(x.value).replace(" ", "") in ("copy.deepcopy(config)", "copy.deepcopy(_DEF_CONF)")]
+    if not bds or len(set(bds)) != 1:
+        raise AnalysisError("_diag: working copy of the configuration not found")
+    BD = bds[0]
+    sub = [c for c in ast.walk(fn) if isinstance(c, ast.Call) and ast.unparse(c.func) == "pydot.Subgraph"]
+    if len(sub) != 1 or not sub[0].keywords or sub[0].keywords[-1].arg is not None or not isinstance(sub[0].keywords[-1].value, ast.Name):
+        raise AnalysisError("_diag: pydot.Subgraph(name, **attributes) not found")
+    CC = sub[0].keywords[-1].value.id
+    gl = getattr(sub[0], "_parent", None)
+    while gl is not None and not isinstance(gl, ast.For):
+        gl = getattr(gl, "_parent", None)
+    G = gl.target.id if gl is not None and isinstance(gl.target, ast.Name) else None
+    cl = [x for x in ast.walk(fn) if isinstance(x, ast.Assign) and is_name(x.targets[0], CC)]
+    if not cl or ast.unparse(cl[0].value).replace('"', "'").replace(" ", "") != "copy.deepcopy(%s['cluster']['default'])" % BD:
         ok = False
         rep.violation("R2", "diagram._diag", "%s:%d" % (rel, fn.lineno), "a cluster does not start from a deep copy of the cluster defaults", "cluster default")
-    if "cconf[key] = bd_conf['cluster'][g][key]" not in src or "if g in bd_conf['cluster']" not in src:
+    good = False
+    for iff in ast.walk(fn):
+        if isinstance(iff, ast.If) and G and ast.unparse(iff.test).replace('"', "'").replace(" ", "") == "%sin%s['cluster']" % (G, BD) and len(iff.body) == 1 \
+                and isinstance(iff.body[0], ast.For) and isinstance(iff.body[0].target, ast.Name):
+            kv = iff.body[0].target.id
+            if "%s[%s]=%s['cluster'][%s][%s]" % (CC, kv, BD, G, kv) in ast.unparse(iff.body[0]).replace('"', "'").replace(" ", ""):
+                good = True
+    if not good:
         ok = False
         rep.violation("R2", "diagram._diag", "%s:%d" % (rel, fn.lineno), "cluster overrides are not taken from the entry named after the group", "cluster override")
     rep.instance("R2", "diagram._diag cluster override precedence", "%s:%d" % (rel, fn.lineno), ok)
@@ -375,11 +411,13 @@ def r4(model, rep):
         sel = parse_selection(node, LDF, lambda n: ast.unparse(n))
         return sel is not None and sel.col == col and sel.reducer == "first" and set(sel.conds) == {("Component", "==", NAME)}
     stores = {ast.unparse(x.targets[0]).replace('"', "'"): x for x in ast.walk(helper) if isinstance(x, ast.Assign) and isinstance(x.targets[0], ast.Subscript)}
-    fc = stores.get("conf['fillcolor']")
+    nodecalls = [c for c in ast.walk(helper) if isinstance(c, ast.Call) and ast.unparse(c.func) == "pydot.Node"]
+    CONF = nodecalls[0].keywords[-1].value.id if nodecalls and nodecalls[0].keywords and isinstance(nodecalls[0].keywords[-1].value, ast.Name) else "conf"
+    fc = stores.get("%s['fillcolor']" % CONF)
     if fc is None or not (isinstance(fc.value, ast.Call) and is_name(fc.value.func, "_gcolor") and own_row(fc.value.args[0], "Mix")):
         ok = False
         rep.violation("R4", "diagram._diag.add_node", "%s:%d" % (rel, (fc or helper).lineno), "a node's heat colour is %s, expected _gcolor(Mix of the node's own row)" % (ast.unparse(fc.value) if fc is not None else "not set"), "node colour source")
-    lb = stores.get("conf['label']")
+    lb = stores.get("%s['label']" % CONF)
     good = False
     if lb is not None and isinstance(lb.value, ast.Call) and isinstance(lb.value.func, ast.Attribute) and isinstance(lb.value.func.value, ast.Constant) and len(lb.value.args) == 2:
         fmt, a0, a1 = lb.value.func.value.value, lb.value.args[0], lb.value.args[1]
@@ -387,22 +425,25 @@ def r4(model, rep):
     if not good:
         ok = False
         rep.violation("R4", "diagram._diag.add_node", "%s:%d" % (rel, (lb or helper).lineno), "a node's heat label is %s, expected '<name>\\n<SI-formatted loss of its own row>W'" % (ast.unparse(lb.value) if lb is not None else "not set"), "node label source")
-    lg = [x for x in ast.walk(d) if isinstance(x, ast.Assign) and ast.unparse(x.targets[0]).replace('"', "'") == "gconf['label']" and "format" in ast.unparse(x.value)]
+    lg = [x for x in ast.walk(d) if isinstance(x, ast.Assign) and isinstance(x.targets[0], ast.Subscript) and ast.unparse(x.targets[0].slice).replace('"', "'") == "'label'"
+          and isinstance(x.value, ast.Call) and isinstance(x.value.func, ast.Attribute) and x.value.func.attr == "format" and x not in ast.walk(helper)]
     good = False
     if lg and isinstance(lg[0].value, ast.Call) and len(lg[0].value.args) == 1:
         a = lg[0].value.args[0]
-        good = isinstance(a, ast.Call) and is_name(a.func, "_nice_float") and ast.unparse(a.args[0]).replace('"', "'") in ("ldf['Loss (W)'].max()",) and lg[0].value.func.value.value.startswith("{}W")
+        LDFN = [x.targets[0].id for x in ast.walk(d) if isinstance(x, ast.Assign) and isinstance(x.targets[0], ast.Name) and isinstance(x.value, ast.Call) and is_name(x.value.func, "_prep_loss")]
+        good = isinstance(a, ast.Call) and is_name(a.func, "_nice_float") and LDFN and ast.unparse(a.args[0]).replace('"', "'") == "%s['Loss (W)'].max()" % LDFN[0] and lg[0].value.func.value.value.startswith("{}W")
     if not good:
         ok = False
         rep.violation("R4", "diagram._diag", "%s:%d" % (rel, (lg[0] if lg else d).lineno), "the legend does not show the maximum loss", "legend value")
-    pl = [x for x in ast.walk(d) if isinstance(x, ast.Assign) and is_name(x.targets[0], "ldf") and isinstance(x.value, ast.Call)]
+    pl = [x for x in ast.walk(d) if isinstance(x, ast.Assign) and isinstance(x.targets[0], ast.Name) and isinstance(x.value, ast.Call) and is_name(x.value.func, "_prep_loss")]
     if not pl or ast.unparse(pl[0].value).replace(" ", "") != "_prep_loss(loss,sys.get_sys_phases())":
         ok = False
         rep.violation("R4", "diagram._diag", "%s:%d" % (rel, d.lineno), "losses are not prepared from the given table with the system's own phases", "prep call")
     rep.instance("R4", "diagram._diag heat colour / label / legend sources", "%s:%d" % (rel, d.lineno), ok)
     hd = model.func("diagram", "make_hdiag")
-    src = ast.unparse(hd).replace(" ", "")
-    ok = "df=sys.solve()" in src and "loss=df" in src
+    sv = [x.targets[0].id for x in ast.walk(hd) if isinstance(x, ast.Assign) and isinstance(x.targets[0], ast.Name) and ast.unparse(x.value).replace(" ", "") == "sys.solve()"]
+    calls = [c for c in ast.walk(hd) if isinstance(c, ast.Call) and is_name(c.func, "_diag")]
+    ok = bool(sv) and len(calls) == 1 and any(k.arg == "loss" and is_name(k.value, sv[0]) for k in calls[0].keywords)
     if not ok:
         rep.violation("R4", "diagram.make_hdiag", "%s:%d" % (rel, hd.lineno), "the heat diagram is not drawn from the system's own solve() table", "hdiag source")
     rep.instance("R4", "diagram.make_hdiag uses solve()", "%s:%d" % (rel, hd.lineno), ok)
